@@ -139,10 +139,10 @@ func socketScenarios(rng *rand.Rand, quick bool) []sockOutcome {
 			p.nreply = 6
 			plans = append(plans, p)
 		}
-		{ // C: expiry after 60 s
+		{ // C: expiry after 60 s; the outstanding packet is the FIRST data after the limit (fix 4f00aa1): not delivered
 			tr, hb := mk(3)
 			p := sockPlan{kind: "60s-expiry"}
-			p.steps = []SkStep{w(tr.Packet(1)), w(tr.Packet(2)), {Kind: 's', Ms: 5200}, y(hb(1)), {Kind: 's', Ms: 56000}, y(hb(2)), w(tr.Packet(3)), y(hb(3)),
+			p.steps = []SkStep{w(tr.Packet(1)), w(tr.Packet(2)), {Kind: 's', Ms: 5200}, y(hb(1)), {Kind: 's', Ms: 56000}, w(tr.Packet(3)), y(hb(2)), y(hb(3)),
 				{Kind: 's', Ms: 5200}, y(hb(4))}
 			p.reads = []string{canonPlain(hb(1)), canonPlain(hb(2)), canonPlain(hb(3)), canonPlain(hb(4))}
 			p.rr = []expRR{{id: tr.ID, serial: tr.Serial0, missing: []int{3}, phone: tr.Phone, v2019: tr.Ver2019}}
